@@ -95,5 +95,10 @@ let () =
            let m0 = init_machine false Z0 Z0 (z_of_int 1) (shape_of shape) in
            (match old_pipe_to_view m0.m_st m0.m_iv.live (shape_of dshape) (z_of_string n) with
             | None -> print_endline "NONE" | Some (_, r) -> print_endline ("r=" ^ zs r))
+         | [k; shape; n; cap; rf] when k = "OLDXF" || k = "OLDXB" ->
+           let m0 = init_machine true (z_of_int 64) Z0 (z_of_int 1) (shape_of shape) in
+           let f = if k = "OLDXF" then old_extract_front_into else old_extract_back_into in
+           (match f m0.m_iv.live (z_of_string n) (z_of_string cap) (z_of_string rf) with
+            | None -> print_endline "NONE" | Some (_, r) -> print_endline ("r=" ^ zs r))
          | _ -> print_endline "BADCASE")
     with _ -> print_endline "BADCASE")
